@@ -49,6 +49,13 @@ pub fn pat(n: usize, seed: u64) -> Vec<u8> {
 fn parse_data(t: &[&str]) -> Option<(Vec<u8>, usize)> {
     match t.first()? {
         &"pat" => Some((pat(t.get(1)?.parse().ok()?, t.get(2)?.parse().ok()?), 3)),
+        &"pats" => {
+            let n: usize = t.get(1)?.parse().ok()?;
+            let skip: usize = t.get(3)?.parse().ok()?;
+            let mut v = pat(n + skip, t.get(2)?.parse().ok()?);
+            v.drain(..skip);
+            Some((v, 4))
+        }
         &"hex" => Some((unhex(t.get(1)?)?, 2)),
         _ => None,
     }
@@ -131,6 +138,7 @@ struct St {
     hs: HashMap<String, blake3::Hasher>,
     xs: HashMap<String, blake3::OutputReader>,
     rs: HashMap<String, reference_impl::Hasher>,
+    vs: HashMap<String, [u8; 32]>,
     #[allow(deprecated)]
     gs: HashMap<String, blake3::guts::ChunkState>,
 }
@@ -243,6 +251,11 @@ fn step(st: &mut St, t: &[&str]) -> Option<String> {
             ok
         }
         ["H", "cvnr", r] => Some(hex(&st.hs.get(*r)?.finalize_non_root())),
+        ["H", "cvnr", r, v] => {
+            let cv = st.hs.get(*r)?.finalize_non_root();
+            st.vs.insert(v.to_string(), cv);
+            Some(hex(&cv))
+        }
         ["X", "fill", x, n] => {
             let mut buf = vec![0u8; n.parse().ok()?];
             st.xs.get_mut(*x)?.fill(&mut buf);
@@ -292,6 +305,27 @@ fn step(st: &mut St, t: &[&str]) -> Option<String> {
             let mode = hz_mode(&m, &mut ck)?;
             match *kind {
                 "nonroot" => Some(hex(&hazmat::merge_subtrees_non_root(&l, &r, mode))),
+                "root" => Some(hex(hazmat::merge_subtrees_root(&l, &r, mode).as_bytes())),
+                "rootxof" => {
+                    let x = rest.get(n + 2)?;
+                    st.xs.insert(x.to_string(), hazmat::merge_subtrees_root_xof(&l, &r, mode));
+                    ok
+                }
+                _ => None,
+            }
+        }
+        ["Z", "mergev", kind, rest @ ..] => {
+            let (m, n) = parse_mode(rest)?;
+            let l = *st.vs.get(*rest.get(n)?)?;
+            let r = *st.vs.get(*rest.get(n + 1)?)?;
+            let mut ck = [0u8; 32];
+            let mode = hz_mode(&m, &mut ck)?;
+            match *kind {
+                "nonroot" => {
+                    let cv = hazmat::merge_subtrees_non_root(&l, &r, mode);
+                    st.vs.insert(rest.get(n + 2)?.to_string(), cv);
+                    Some(hex(&cv))
+                }
                 "root" => Some(hex(hazmat::merge_subtrees_root(&l, &r, mode).as_bytes())),
                 "rootxof" => {
                     let x = rest.get(n + 2)?;
